@@ -418,6 +418,254 @@ Theorem C06_code_start_run : forall orc t i c ops_all ops idx s acc,
 Proof. exact run_ops_code_inv. Qed.
 Print Assumptions C06_code_start_run.
 
+(** * 9. Audit B, the items that were open (proofs/AuditB_C06b.v) *)
+From GoBT Require Import proofs.AuditB_C06b.
+
+(** the parser and Unparse are inverse: a script accepted by the parser unparses to itself *)
+Theorem C06_parse_unparse : forall e bs ops, parse_script e bs = Some ops -> unparse ops = Some bs.
+Proof. exact parse_script_unparse. Qed.
+Print Assumptions C06_parse_unparse.
+
+(** [unparse_of_parsed]: for every script accepted by the parser, Unparse succeeds on every suffix of the parsed
+    opcode list (the script code after a code separator), also after removing any set of opcodes (signature
+    pushes, separators), and the result is not longer than the script *)
+Theorem C06_unparse_of_parsed : forall e bs ops n f, parse_script e bs = Some ops ->
+  exists up, unparse (filter f (skipn n ops)) = Some up /\ (length up <= length bs)%nat.
+Proof. exact unparse_of_parsed. Qed.
+Print Assumptions C06_unparse_of_parsed.
+Theorem C06_unparse_suffix_of_parsed : forall e bs ops n, parse_script e bs = Some ops ->
+  exists up, unparse (skipn n ops) = Some up /\ (length up <= length bs)%nat.
+Proof. exact unparse_suffix_of_parsed. Qed.
+Print Assumptions C06_unparse_suffix_of_parsed.
+
+(** [C06_checksig_result] for a running script, without the Unparse hypothesis: when the current script is a parse
+    result of fewer than 2^64 bytes (it always is: apply and the P2SH step parse what they run) and the three
+    encoding checks pass, the script code unparses and the pushed boolean is go-bk's verdict on (key, the
+    SPECIFICATION's digest of that script code, signature) *)
+Theorem C06_checksig_result_running : forall orc t i c s idx pk full r sig hb inp e bs,
+  parse_script e bs = Some (cur s) -> (lenN bs < two64)%N ->
+  ds s = pk :: full :: r -> split_last full = Some (sig, hb) ->
+  check_hash_type c (b2n hb) = true -> check_sig_enc c sig = EncOk -> check_pubkey_enc c pk = true ->
+  wf_tx t -> nth_error (tx_ins t) (N.to_nat i) = Some inp -> (i < 2147483648)%N ->
+  (N.of_nat (length (tx_outs t)) < 2147483648)%N ->
+  exists up, unparse (checksig_code_ops c s full (b2n hb)) = Some up /\ (length up <= length bs)%nat /\
+  let h := digest_spec (wire_tx t) (N.to_nat i) up (in_sats inp) (b2n hb) in
+  checksig_run orc t i c s idx false =
+  if orc_parse_pub orc pk && orc_parse_sig orc (uses_der_parser c) sig then
+    match orc_verify orc pk h sig (uses_der_parser c) with
+    | None => None
+    | Some true => Some (push_bool (set_ds s r) true)
+    | Some false => Some (checksig_failed c (set_ds s r) full)
+    end
+  else Some (checksig_failed c (set_ds s r) full).
+Proof. exact checksig_result_running. Qed.
+Print Assumptions C06_checksig_result_running.
+
+(** OP_CHECKMULTISIG end to end over the SPECIFICATION's digest: [C06_checkmultisig_accepts_iff_matching] with
+    [pair_ok_spec] -- "both parse in go-bk and Verify says yes for [digest_spec] (the independent BSV digest, FORKID
+    with the spent value of the input or original, by the hash-type bit) of the script code of THAT signature" --
+    in place of the model's digest; "well encoded" no longer mentions the model's digest either
+    ([sig_well_encoded_spec]: hash-type and DER checks pass, the script code unparses to fewer than 2^64 bytes) *)
+Theorem C06_checkmultisig_accepts_iff_matching_spec : forall orc t i c s idx nk pks ns sigs dummy rest a b inp,
+  oracle_total orc ->
+  wf_tx t -> nth_error (tx_ins t) (N.to_nat i) = Some inp -> (i < 2147483648)%N ->
+  (N.of_nat (length (tx_outs t)) < 2147483648)%N ->
+  ds s = nk :: pks ++ ns :: sigs ++ dummy :: rest ->
+  pop_count c nk = Some a -> to_int32 a = Z.of_nat (length pks) ->
+  pop_count c ns = Some b -> to_int32 b = Z.of_nat (length sigs) ->
+  (length sigs <= length pks)%nat -> (Z.of_nat (length pks) <= max_pubkeys c)%Z ->
+  (nops s + Z.of_nat (length pks) <= max_ops c)%Z ->
+  (has_flag c F_STRICTMULTISIG = true -> dummy = []) ->
+  Forall (key_well_encoded c) pks ->
+  Forall (sig_well_encoded_spec c (multisig_code_ops c s sigs)) sigs ->
+  exists ok,
+    (ok = true <-> monotone_matching (fun sg k =>
+        pair_ok_spec orc (wire_tx t) (N.to_nat i) (in_sats inp) c (multisig_code_ops c s sigs) sg k = true) sigs pks) /\
+    checkmultisig_run orc t i c s idx false =
+      if negb ok && has_flag c F_NULLFAIL && existsb (fun sg => Nat.ltb 0 (length sg)) sigs then Some OErr
+      else Some (push_bool (set_nops (set_ds s rest) (nops s + Z.of_nat (length pks))) ok).
+Proof. exact checkmultisig_accepts_iff_matching_spec. Qed.
+Print Assumptions C06_checkmultisig_accepts_iff_matching_spec.
+
+(** the same on a running script (current script = a parse result of fewer than 2^64 bytes): the script codes
+    unparse by [C06_unparse_of_parsed], so only the hash-type and DER checks of the non-empty signatures
+    ([sig_checks_pass]) and the key checks remain as hypotheses *)
+Theorem C06_checkmultisig_accepts_iff_matching_running : forall orc t i c s idx nk pks ns sigs dummy rest a b inp e bs,
+  oracle_total orc ->
+  parse_script e bs = Some (cur s) -> (lenN bs < two64)%N ->
+  wf_tx t -> nth_error (tx_ins t) (N.to_nat i) = Some inp -> (i < 2147483648)%N ->
+  (N.of_nat (length (tx_outs t)) < 2147483648)%N ->
+  ds s = nk :: pks ++ ns :: sigs ++ dummy :: rest ->
+  pop_count c nk = Some a -> to_int32 a = Z.of_nat (length pks) ->
+  pop_count c ns = Some b -> to_int32 b = Z.of_nat (length sigs) ->
+  (length sigs <= length pks)%nat -> (Z.of_nat (length pks) <= max_pubkeys c)%Z ->
+  (nops s + Z.of_nat (length pks) <= max_ops c)%Z ->
+  (has_flag c F_STRICTMULTISIG = true -> dummy = []) ->
+  Forall (key_well_encoded c) pks ->
+  Forall (sig_checks_pass c) sigs ->
+  exists ok,
+    (ok = true <-> monotone_matching (fun sg k =>
+        pair_ok_spec orc (wire_tx t) (N.to_nat i) (in_sats inp) c (multisig_code_ops c s sigs) sg k = true) sigs pks) /\
+    checkmultisig_run orc t i c s idx false =
+      if negb ok && has_flag c F_NULLFAIL && existsb (fun sg => Nat.ltb 0 (length sg)) sigs then Some OErr
+      else Some (push_bool (set_nops (set_ds s rest) (nops s + Z.of_nat (length pks))) ok).
+Proof. exact checkmultisig_accepts_iff_matching_running. Qed.
+Print Assumptions C06_checkmultisig_accepts_iff_matching_running.
+
+(** the hash-type rule for EVERY flag word, BIP143 on or off, all 256 hash-type bytes (a computed sweep over the
+    2 x 2 x 2 values of the three flags checkHashTypeEncoding reads x 256 bytes, [hash_type_sweep]): under STRICTENC
+    a defined base type, and the FORKID bit exactly when the FORKID flag OR the BIP143 flag is set *)
+Theorem C06_hash_type_rule_all_flags : forall c shf, (shf < 256)%N ->
+  check_hash_type c shf =
+  hash_type_rule_all (has_flag c F_STRICTENC) (has_flag c F_FORKID) (has_flag c F_BIP143) shf.
+Proof. exact check_hash_type_rule_all. Qed.
+Print Assumptions C06_hash_type_rule_all_flags.
+
+(** [C06_flag_table] without the hypothesis on the BIP143 flag: for EVERY flag word OP_CHECKSIG on a non-empty
+    signature is a hard failure exactly when the pair has a defect that [hard_all] marks; [hard_all] is [hard]
+    except that the two FORKID-bit rows read "FORKID flag or BIP143 flag" (with BIP143 off it IS [hard]) *)
+Theorem C06_flag_table_all_flags : forall orc c t i s idx pk full r sig hb up h,
+  ds s = pk :: full :: r -> split_last full = Some (sig, hb) ->
+  unparse (checksig_code_ops c s full (b2n hb)) = Some up -> sighash_for t i up (b2n hb) = SOk h ->
+  orc_verify orc pk h sig (uses_der_parser c) <> None ->
+  let verdict := orc_parse_pub orc pk && orc_parse_sig orc (uses_der_parser c) sig &&
+                 match orc_verify orc pk h sig (uses_der_parser c) with Some true => true | _ => false end in
+  ((exists d, has_defect orc c pk sig (b2n hb) h d /\ hard_all c d = true) ->
+     checksig_run orc t i c s idx false = Some OErr) /\
+  (~ (exists d, has_defect orc c pk sig (b2n hb) h d /\ hard_all c d = true) ->
+     checksig_run orc t i c s idx false = Some (push_bool (set_ds s r) verdict)).
+Proof. exact checksig_table_all_flags. Qed.
+Print Assumptions C06_flag_table_all_flags.
+
+Theorem C06_flag_table_bip143_off : forall c d, has_flag c F_BIP143 = false -> hard_all c d = hard c d.
+Proof. exact hard_all_bip143_off. Qed.
+Print Assumptions C06_flag_table_bip143_off.
+
+(** the table spelled out for the 128 subsets, BIP143 included ([flags_of7]; computed) *)
+Theorem C06_flag_table_128 : forall se de lo nd nf fk b143,
+  let c := flags_of7 se de lo nd nf fk b143 in
+  has_flag c F_BIP143 = b143 /\
+  hard_all c HashTypeUndefined = (se || fk) /\
+  hard_all c ForkIdBit = ((se || fk) && negb (fk || b143)) /\
+  hard_all c NoForkIdBit = ((se || fk) && (fk || b143)) /\
+  hard_all c NotStrictDER = (de || lo || se || fk) /\
+  hard_all c HighS = lo /\
+  hard_all c PubKeyShape = (se || fk) /\
+  hard_all c VerifyFails = nf /\
+  hard_all c Unparsable = nf.
+Proof. exact flag_table_128. Qed.
+Print Assumptions C06_flag_table_128.
+
+(** STRICTENC | BIP143 without the FORKID flag: hash type 01 is refused, 41 accepted (the row that differs from
+    the BIP143-off table, where 41 is refused and 01 accepted) *)
+Example C06_bip143_examples :
+  let on := flags_of7 true false false false false false true in
+  let off := flags_of7 true false false false false false false in
+  check_hash_type on 1 = false /\ check_hash_type on 65 = true /\
+  check_hash_type off 1 = true /\ check_hash_type off 65 = false.
+Proof. vm_compute. repeat split; reflexivity. Qed.
+
+(** the code-separator example: OP_1 OP_CODESEPARATOR <30 01> OP_CHECKSIG parses; the script code after the
+    separator (suffix from index 2) unparses to the last three bytes plus the opcode *)
+Example C06_unparse_suffix_example :
+  match parse_script false [x51; xab; x02; x30; x01; xac] with
+  | Some ops => unparse (skipn 2 ops) = Some [x02; x30; x01; xac] /\ unparse ops = Some [x51; xab; x02; x30; x01; xac]
+  | None => False
+  end.
+Proof. vm_compute. split; reflexivity. Qed.
+
+(** * 10. the code start along a run, across script changes (proofs/AuditB_C06b.v, section 4) *)
+
+(** [run_steps] lists the execute_opcode calls of [run_ops] in order, as (index, opcode, state before): every
+    step's outcome is the next step's state, and the last step's outcome is how run_ops ends *)
+Theorem C06_run_steps_chain : forall so c ops idx s pre k p s1 k' p' s2 post,
+  run_steps so c ops idx s = pre ++ (k, p, s1) :: (k', p', s2) :: post ->
+  execute_opcode so c p k s1 = OOk s2 /\ k' = S k.
+Proof. exact run_steps_chain. Qed.
+Print Assumptions C06_run_steps_chain.
+Theorem C06_run_steps_end : forall so c ops idx s acc, ops <> [] ->
+  exists pre k p sl, run_steps so c ops idx s = pre ++ [(k, p, sl)] /\
+                     fst (run_ops so c ops idx s acc) = step_end c (execute_opcode so c p k sl).
+Proof. exact run_ops_last_step. Qed.
+Print Assumptions C06_run_steps_end.
+
+(** [code_start_after c g tr]: the index after the LAST step of [tr] that executed an OP_CODESEPARATOR
+    ([sep_executed]: the opcode is a separator in an executing branch, not after an early return), [g] if none *)
+Theorem C06_code_start_after : forall c g tr k p s,
+  code_start_after c g [] = g /\
+  code_start_after c g (tr ++ [(k, p, s)]) = if sep_executed c p s then S k else code_start_after c g tr.
+Proof. intros. split; [apply code_start_after_nil|apply code_start_after_snoc]. Qed.
+Print Assumptions C06_code_start_after.
+
+(** the handler of a signature opcode is called with the state before the step, the operation count charged:
+    same current script, same code start (or the step fails earlier / the opcode is not executed) *)
+Theorem C06_sigop_call_state : forall so c p idx s,
+  let s1 := set_nops s (nops s + 1)%Z in
+  let o := execute_opcode so c p idx s in
+  (p_val p = OP_CHECKSIG -> o = OErr \/ o = OPanic \/ o = OOk s1 \/ o = so_checksig so c s1 idx false) /\
+  (p_val p = OP_CHECKSIGVERIFY -> o = OErr \/ o = OPanic \/ o = OOk s1 \/ o = so_checksig so c s1 idx true) /\
+  (p_val p = OP_CHECKMULTISIG -> o = OErr \/ o = OPanic \/ o = OOk s1 \/ o = so_checkmultisig so c s1 idx false) /\
+  (p_val p = OP_CHECKMULTISIGVERIFY -> o = OErr \/ o = OPanic \/ o = OOk s1 \/ o = so_checkmultisig so c s1 idx true).
+Proof. exact execute_sigop_call. Qed.
+Print Assumptions C06_sigop_call_state.
+
+(** the start states of the run_ops calls of [execute] / [run_lock] / [run_redeem] (first script; locking script
+    after shiftScript; redeem script after shiftScript with the saved stack): current script installed, code start 0 *)
+Theorem C06_script_start_shapes : forall ops s d,
+  script_start ops (init_st ops) /\ script_start ops (shift_script s ops) /\
+  script_start ops (set_ds (shift_script s ops) d).
+Proof. exact script_start_shapes. Qed.
+Print Assumptions C06_script_start_shapes.
+
+(** run level, across the unlocking / locking / redeem boundaries: in the run of a script started in one of those
+    states, at EVERY step (k, p, sk) -- [pre] being the steps before it -- p is opcode k of the current script and the
+    script code a signature opcode cuts there is the suffix of the CURRENT script after the most recently executed
+    OP_CODESEPARATOR of this script's run (separators executed in a previous script do not count: shiftScript
+    resets the start), minus signature pushes and separators for the original digest *)
+Theorem C06_code_start_along_run : forall orc t i c ops s0 pre k p sk post,
+  script_start ops s0 ->
+  run_steps (mk_sigops orc t i) c ops 0 s0 = pre ++ (k, p, sk) :: post ->
+  nth_error ops k = Some p /\
+  sub_script (set_nops sk (nops sk + 1)%Z) = skipn (code_start_after c 0 pre) ops /\
+  forall full shf,
+    checksig_code_ops c (set_nops sk (nops sk + 1)%Z) full shf =
+    if has_flag c F_FORKID && flag_has shf sh_forkid then skipn (code_start_after c 0 pre) ops
+    else filter (kept full) (skipn (code_start_after c 0 pre) ops).
+Proof. exact code_start_along_run. Qed.
+Print Assumptions C06_code_start_along_run.
+
+(** OP_1 OP_CODESEPARATOR OP_1 OP_CODESEPARATOR OP_1 in a skipped branch does not count: for
+    OP_CODESEPARATOR OP_0 OP_IF OP_CODESEPARATOR OP_ENDIF OP_1 the start before the last step is 1, not 4 *)
+Example C06_code_start_example :
+  let c := flags_of false false false false false false in
+  let ops := match parse_script false [xab; x00; x63; xab; x68; x51] with Some o => o | None => [] end in
+  map (fun x : step => last_sep (snd x)) (run_steps (mk_sigops any_oracle ex_tx 1) c ops 0 (init_st ops)) = [0; 1; 1; 1; 1; 1]%nat.
+Proof. vm_compute. reflexivity. Qed.
+
+(** the WHOLE execution ([execute] / [engine_execute]: unlocking script, locking script, P2SH redeem script, with
+    their shiftScript steps): every call of a signature opcode's handler happens in a state whose code start lies
+    within the executed part of the CURRENT script and is 0 or the index right after an OP_CODESEPARATOR opcode of
+    the current script ([code_guard]) -- stated as: handlers that PANIC when called outside the guard ([guarded])
+    give the same execution, for every input.  (Which separator: [C06_code_start_along_run].) *)
+Theorem C06_code_guard_whole_execution : forall orc t i c bip16 unlock lock,
+  execute (guarded (mk_sigops orc t i)) c bip16 unlock lock = execute (mk_sigops orc t i) c bip16 unlock lock.
+Proof. exact execute_guarded. Qed.
+Print Assumptions C06_code_guard_whole_execution.
+Theorem C06_code_guard_engine : forall orc t i inp,
+  engine_execute (guarded (mk_sigops orc t i)) inp = engine_execute (mk_sigops orc t i) inp.
+Proof. exact engine_execute_guarded. Qed.
+Print Assumptions C06_code_guard_engine.
+
+(** the guard can fail (the statement above is not empty): a code start beyond the current opcode, or one that
+    does not follow a separator, makes the guarded handler panic *)
+Example C06_code_guard_can_fail :
+  let so := guarded (mk_sigops any_oracle ex_tx 1) in
+  let c := flags_of false false false false false false in
+  so_checksig so c (set_sep (init_st [mkPop OP_1 1 [] true; mkPop OP_CHECKSIG 1 [] true]) 2) 1 false = OPanic /\
+  so_checksig so c (set_sep (init_st [mkPop OP_1 1 [] true; mkPop OP_CHECKSIG 1 [] true]) 1) 1 false = OPanic /\
+  so_checksig so c (init_st [mkPop OP_1 1 [] true; mkPop OP_CHECKSIG 1 [] true]) 1 false = OErr.
+Proof. vm_compute. repeat split; reflexivity. Qed.
+
 (** * non-vacuity *)
 Example C06_tx_ctx_ok_satisfiable : tx_ctx_ok ex_tx 1.
 Proof.
